@@ -301,8 +301,10 @@ def o_logger(ex, V):
                 from_cbres = ev[1] == "cbres"
             # Callback.result() is the second program point of the callback operation: the operation's position
             # in program order is its create_callback call, so result() deliveries do not move the boundary
-            if ev[0] == "deliver" and tuple(ev[1]) in term and not from_cbres:
-                last = i
+            if ev[0] == "deliver":
+                if tuple(ev[1]) in term and not from_cbres:
+                    last = i
+                from_cbres = False      # the flag concerns only the delivery made by that result() call
         emitted = [m for m, _ in inv["logs"]]
         eset = set(emitted)
         for i, ev in enumerate(raw):
